@@ -34,6 +34,7 @@ type R struct {
 	txs   []string
 	msgs  []string
 	count int
+	pend  []string // lines the generator emits next (after a ghost transaction: a query of the id it would get, then the same transaction for real)
 }
 
 // New needs only the environment (it is also registered in mods/all); NewLen additionally
@@ -185,6 +186,11 @@ func (r *R) Gen(ctx sdk.Context, g *hx.Rng) string {
 	if r.Len > 0 && r.count >= r.Len {
 		return "record query_all"
 	}
+	if len(r.pend) > 0 {
+		l := r.pend[0]
+		r.pend = r.pend[1:]
+		return l
+	}
 	// genesis round trip inside the history (C12): the exported document, and a re-import after
 	// which the rest of the history runs on the imported store (no draw at all without the flag)
 	if r.Genesis && r.hasRecords(ctx) {
@@ -217,6 +223,12 @@ func (r *R) Gen(ctx sdk.Context, g *hx.Rng) string {
 			} else {
 				ms = append(ms, r.genMsg(g))
 			}
+		}
+		if g.Chance(1, 8) {
+			// the transaction executed on a context that is thrown away (a simulation, a CheckTx, a node one block
+			// behind): nothing it does may be visible afterwards. The generator then reads the id it would get and
+			// sends the same transaction for real.
+			return "record ghost_tx tx=" + hx.Dash(tx) + " msgs=" + strings.Join(ms, ";")
 		}
 		return "record tx tx=" + hx.Dash(tx) + " msgs=" + strings.Join(ms, ";")
 	case 1:
@@ -290,7 +302,8 @@ func (r *R) Exec(ctx sdk.Context, line string) (sdk.Context, string) {
 	f := strings.Fields(line)
 	a := hx.Args(f[2:])
 	switch f[1] {
-	case "tx":
+	case "tx", "ghost_tx":
+		ghost := f[1] == "ghost_tx"
 		txb, err := hex.DecodeString(hx.Undash(a["tx"]))
 		if err != nil {
 			hx.Fail("bad tx bytes %q", line)
@@ -337,11 +350,17 @@ func (r *R) Exec(ctx sdk.Context, line string) (sdk.Context, string) {
 				}
 				ids = append(ids, resp.Id)
 			}
-			if class == hx.OK {
+			if class == hx.OK && !ghost {
 				write()
-			} else {
+			} else if class != hx.OK {
 				ids = nil
 			}
+		}
+		if ghost {
+			if len(ids) > 0 {
+				r.pend = []string{"record query id=" + ids[len(ids)-1], "record tx " + strings.Join(f[2:], " "), "record query id=" + ids[len(ids)-1]}
+			}
+			return ctx, class + " " + r.counts(ctx) + " ghost=" + hx.Dash(strings.Join(ids, ";"))
 		}
 		var es []string
 		for _, id := range ids {
